@@ -340,6 +340,9 @@ func decodeColumnsMetadata(globalTableSpec bool, columnCount int32, source io.Re
 			return nil, fmt.Errorf("cannot read column col global table: %w", err)
 		}
 	}
+	if columnCount < 0 {
+		return nil, fmt.Errorf("invalid column count: %d", columnCount)
+	}
 	cols = make([]*ColumnMetadata, columnCount)
 	for i := 0; i < int(columnCount); i++ {
 		cols[i] = &ColumnMetadata{}
